@@ -94,15 +94,18 @@ class Stack(Contract):
     def setup(self, S, case):
         env = _make_arrays(S, case)
         k = case["k"]
-        names = ["v%d" % j for j in range(k)]
-        env["keys"] = {"default": list(range(k)), "str": names, "int": [10 * (j + 1) for j in range(k)]}[case["keys"]]
+        # (descending: insertion order and sorted order of the keys differ, so a mix-up between keys and arrays is visible)
+        names = ["v%d" % (k - 1 - j) for j in range(k)]
+        env["keys"] = {"default": list(range(k)), "str": names, "int": [10 * (k - j) for j in range(k)]}[case["keys"]]
         return env
 
     def call(self, fn, env):
         case, arrays = env["case"], env["arrays"]
         if case["form"] == "dict":
             # dict form: the keys of the dict label the new axis (insertion order)
-            arg = dict(zip(env["keys"] if case["keys"] == "str" else range(case["k"]), arrays))
+            if case["keys"] != "str":
+                env["keys"] = [case["k"] - 1 - j for j in range(case["k"])]      # integer dict keys, descending
+            arg = dict(zip(env["keys"], arrays))
             return fn(arg, axis=NEW)
         arg = list(arrays) if case["form"] == "list" else tuple(arrays)
         if case["keys"] == "default":
